@@ -8,6 +8,7 @@ use serde::{Deserialize, Serialize};
 
 use crate::clock;
 use crate::ensure;
+use crate::hist::pick;
 use crate::multi::*;
 use crate::runner::*;
 use crate::vterm::VTerm;
@@ -119,7 +120,7 @@ pub fn limited_strategy(tier: Tier) -> BoxedStrategy<MultiCase> {
         .prop_map(|((cols, hz, step_ms, burn), ops)| {
             let mut all = vec![];
             if burn {
-                let leave = BarSpec { two_lines: false, len: Some(5), on_finish: 0, msg: String::new() };
+                let leave = BarSpec { two_lines: false, len: Some(5), on_finish: 0, msg: String::new(), key_nl: false };
                 all.push(MOp::Add(leave));
                 all.extend(std::iter::repeat(MOp::Tick(0)).take(22));
             }
@@ -267,6 +268,181 @@ fn run_threads(c: &ThreadsCase) -> CaseResult {
     Ok(v)
 }
 
+// ------------------------------------------------------------------------------------------
+// bars that change hands between two MultiProgress objects
+
+#[derive(Debug, Clone, Serialize, Deserialize)]
+pub enum TwoOp {
+    /// a new bar, added to the first (false) or second (true) MultiProgress
+    Add(bool),
+    /// hand bar `.0` to the other MultiProgress (a removed bar: to the first) with add (0), insert(0, ..) (1)
+    /// or insert_from_back(0, ..) (2)
+    Move(u16, u8),
+    /// give bar `.0` to the MultiProgress it already belongs to: no effect
+    Again(u16),
+    Tick(u16),
+    Inc(u16),
+    Finish(u16),
+    Remove(u16),
+}
+
+#[derive(Debug, Clone, Serialize, Deserialize)]
+pub struct TwoCase {
+    ops: Vec<TwoOp>,
+}
+
+fn run_two(c: &TwoCase) -> CaseResult {
+    let _clk = clock::Armed::new();
+    let vts = [VTerm::raw(60, 40), VTerm::raw(60, 40)];
+    let mps = [
+        MultiProgress::with_draw_target(ProgressDrawTarget::term_like(vts[0].boxed())),
+        MultiProgress::with_draw_target(ProgressDrawTarget::term_like(vts[1].boxed())),
+    ];
+    struct B {
+        pb: ProgressBar,
+        tag: usize,
+        home: Option<usize>,
+        pos: u64,
+        finished: bool,
+    }
+    // per MultiProgress: (tag, rendering cached at the bar's last draw there)
+    let mut lists: [Vec<(usize, Option<String>)>; 2] = [vec![], vec![]];
+    let mut bars: Vec<B> = vec![];
+    let mut v = Verdict::default();
+    let mut moved_and_drawn = false;
+    let mut pending_move: Vec<usize> = vec![];
+    for (i, op) in c.ops.iter().enumerate() {
+        clock::advance(Duration::from_millis(2));
+        let flushes = [vts[0].nflush(), vts[1].nflush()];
+        let n = bars.len();
+        let r = catch(|| match op {
+            TwoOp::Add(second) => {
+                if n >= 6 {
+                    return;
+                }
+                let m = *second as usize;
+                let tag = n;
+                let pb = mps[m].add(ProgressBar::with_draw_target(Some(9), ProgressDrawTarget::hidden()));
+                pb.set_style(ProgressStyle::with_template(&format!("T{tag}:{{pos}}")).unwrap());
+                lists[m].push((tag, None));
+                bars.push(B { pb, tag, home: Some(m), pos: 0, finished: false });
+            }
+            TwoOp::Move(sel, how) if n > 0 => {
+                let b = &mut bars[pick(*sel, n)];
+                let to = match b.home {
+                    Some(m) => 1 - m,
+                    None => 0,
+                };
+                let back = match how % 3 {
+                    0 => mps[to].add(b.pb.clone()),
+                    1 => mps[to].insert(0, b.pb.clone()),
+                    _ => mps[to].insert_from_back(0, b.pb.clone()),
+                };
+                drop(back);
+                if let Some(m) = b.home {
+                    // it leaves the old one (which repaints without it) ...
+                    lists[m].retain(|e| e.0 != b.tag);
+                }
+                // ... and is a member of the new one, not drawn there yet
+                if how % 3 == 1 {
+                    lists[to].insert(0, (b.tag, None));
+                } else {
+                    lists[to].push((b.tag, None));
+                }
+                b.home = Some(to);
+            }
+            TwoOp::Again(sel) if n > 0 => {
+                let b = &bars[pick(*sel, n)];
+                if let Some(m) = b.home {
+                    drop(mps[m].insert(0, b.pb.clone()));
+                }
+            }
+            TwoOp::Tick(sel) | TwoOp::Inc(sel) | TwoOp::Finish(sel) if n > 0 => {
+                let b = &mut bars[pick(*sel, n)];
+                match op {
+                    TwoOp::Tick(_) => b.pb.tick(),
+                    TwoOp::Inc(_) => {
+                        b.pos = b.pos.wrapping_add(1);
+                        b.pb.inc(1)
+                    }
+                    _ => {
+                        b.pb.finish();
+                        b.pos = 9;
+                        b.finished = true;
+                    }
+                }
+                if let Some(m) = b.home {
+                    if let Some(e) = lists[m].iter_mut().find(|e| e.0 == b.tag) {
+                        e.1 = Some(format!("T{}:{}", b.tag, b.pos));
+                    }
+                }
+            }
+            TwoOp::Remove(sel) if n > 0 => {
+                let b = &mut bars[pick(*sel, n)];
+                if let Some(m) = b.home.take() {
+                    mps[m].remove(&b.pb);
+                    lists[m].retain(|e| e.0 != b.tag);
+                }
+            }
+            _ => {}
+        });
+        r.map_err(|p| Fail::new("panic", format!("op #{i} {op:?} panicked: {p} (ops {:?})", &c.ops[..=i])))?;
+        if let TwoOp::Move(..) = op {
+            pending_move = bars.iter().filter(|b| b.home.is_some()).map(|b| b.tag).collect();
+        }
+        for m in 0..2 {
+            if vts[m].nflush() == flushes[m] {
+                continue;
+            }
+            let got = vts[m].last_frame_lines().map_err(|e| Fail::new("harness", e))?;
+            let want: Vec<String> = lists[m].iter().filter_map(|e| e.1.clone()).collect();
+            let got: Vec<String> = got.iter().map(|l| l.trim_end().to_string()).filter(|l| !l.is_empty()).collect();
+            ensure!(
+                got == want,
+                "two_multis",
+                "op #{i} {op:?}: MultiProgress #{m} painted {got:?}, its members in order are {:?} (ops {:?})",
+                lists[m],
+                &c.ops[..=i]
+            );
+            if matches!(op, TwoOp::Tick(_) | TwoOp::Inc(_) | TwoOp::Finish(_)) && !pending_move.is_empty() {
+                moved_and_drawn = true;
+            }
+        }
+        // a draw of a member paints on its own MultiProgress's terminal and nowhere else
+        if let TwoOp::Tick(sel) | TwoOp::Inc(sel) | TwoOp::Finish(sel) = op {
+            if n > 0 {
+                let b = &bars[pick(*sel, n)];
+                for m in 0..2 {
+                    let painted = vts[m].nflush() != flushes[m];
+                    ensure!(painted == (b.home == Some(m)), "two_multis", "op #{i} {op:?}: bar T{} is a member of {:?}, but MultiProgress #{m} {} (ops {:?})", b.tag, b.home, if painted { "was repainted" } else { "was not repainted" }, &c.ops[..=i]);
+                }
+            }
+        }
+    }
+    for b in bars.drain(..) {
+        catch(move || drop(b.pb)).map_err(|p| Fail::new("panic", format!("dropping a bar panicked: {p}")))?;
+    }
+    v.nontrivial = moved_and_drawn;
+    v.label_if(moved_and_drawn, "bar_drawn_after_it_changed_hands");
+    v.label_if(c.ops.iter().any(|o| matches!(o, TwoOp::Again(_))), "member_given_to_its_own_multi_progress_again");
+    Ok(v)
+}
+
+fn two_strategy(tier: Tier) -> BoxedStrategy<TwoCase> {
+    let n = tier.pick(24, 48);
+    let s = || any::<u16>();
+    let op = prop_oneof![
+        3 => any::<bool>().prop_map(TwoOp::Add),
+        3 => (s(), 0u8..3).prop_map(|(b, h)| TwoOp::Move(b, h)),
+        1 => s().prop_map(TwoOp::Again),
+        5 => s().prop_map(TwoOp::Tick),
+        3 => s().prop_map(TwoOp::Inc),
+        1 => s().prop_map(TwoOp::Finish),
+        1 => s().prop_map(TwoOp::Remove),
+    ];
+    proptest::collection::vec(op, 0..n).prop_map(|ops| TwoCase { ops }).boxed()
+}
+
 pub fn property() -> Property {
     let w = default_workers();
     Property {
@@ -300,6 +476,17 @@ pub fn property() -> Property {
                 run: run_history,
                 signature,
                 essential: &["two_bars_alive", "draws_skipped_by_the_limiter", "static_block", "head_zombie_reaped"],
+                workers: w,
+                decode: None,
+            }),
+            Box::new(Gen::<TwoCase> {
+                name: "two_multis",
+                rule: "two MultiProgress objects on two terminals and up to six bars; ops add / hand a bar to the other MultiProgress with add, insert(0, ..) or insert_from_back(0, ..) / give a member to its own MultiProgress again (no effect) / tick / inc / finish / remove; whenever a MultiProgress paints, the frame is the cached renderings of exactly its current members in its order, and a draw of a bar repaints the MultiProgress it belongs to and no other; non-trivial = a bar was drawn after it changed hands",
+                strategy: two_strategy,
+                cases: |t| t.pick(3_000, 300_000),
+                run: run_two,
+                signature: no_signature,
+                essential: &["bar_drawn_after_it_changed_hands", "member_given_to_its_own_multi_progress_again"],
                 workers: w,
                 decode: None,
             }),
